@@ -269,6 +269,21 @@ def run(shard, ctx):
             for sub in itertools.combinations(opt, r):
                 subsets.append(sub)
         for setname in c.sets:
+            if c.name == "WriteSame16":
+                # documented: with NDOB=1 no block is transferred, so no block size is needed either
+                for bs in (0, None):
+                    dev0 = harness.Recorder(getattr(E, setname))
+                    s0 = harness.make_facade(dev0) if bs == 0 else __import__("pyscsi.pyscsi.scsi", fromlist=["SCSI"]).SCSI(None)
+                    if bs is None:
+                        s0.device = dev0
+                    ctx.case(("ws16-ndob", setname, bs), True)
+                    try:
+                        s0.writesame16(5, 8, None, ndob=1)
+                    except Exception as e:  # noqa: BLE001
+                        ctx.fail("C13:writesame16.rejected_before_send.ndob_without_blocksize.%s" % type(e).__name__, "writesame16(ndob=1) on a facade without block size raised %s" % type(e).__name__,
+                                 {"method": "writesame16", "table": setname, "blocksize": bs}, exc=e)
+                    if len(dev0.calls) != 1 and not ctx.failures:
+                        ctx.fail("C13:writesame16.execute_count_%d" % len(dev0.calls), "writesame16(ndob=1) without block size: %d commands" % len(dev0.calls), {"method": "writesame16"})
             fault_round(ctx, c, setname, dict(required_args(c, rng)), rng)
             for rep in range(shard["reps"]):
                 for sub in subsets:
@@ -462,12 +477,45 @@ def run_attached(shard, ctx):
 
     rng = ctx.rng()
 
-    def device(devtype, log):
+    def device(devtype, log, qualifier=0):
         def fill(cmd):
             log.append(cmd)
             if cmd.cdb[0] == 0x12 and len(cmd.datain):
-                cmd.datain[0] = devtype
+                cmd.datain[0] = (qualifier << 5) | devtype
         return harness.Recorder(E.spc, fill)
+
+    # attached and nothing else: with every peripheral qualifier, each method of the set that the reported *type* selects sends
+    # its one command with that set's operation code
+    SET_OF = {0x00: "sbc", 0x04: "sbc", 0x07: "sbc", 0x01: "ssc", 0x05: "mmc", 0x08: "smc"}
+    for devtype, setname in SET_OF.items():
+        for q in range(8):
+            for c in S.COMMANDS.values():
+                if not c.facade or setname not in c.sets:
+                    continue
+                log = []
+                dev = device(devtype, log, q)
+                try:
+                    s = SCSI(dev, 512)
+                except Exception as e:  # noqa: BLE001
+                    ctx.fail("C13:attached.attach_raises.%s" % type(e).__name__, "attach (type %02Xh qualifier %d) raised %s" % (devtype, q, e), {"devtype": devtype, "qualifier": q}, exc=e)
+                    break
+                del log[:]
+                a = dict(required_args(c, rng))
+                if "blocksize" in a and c.xfer != "ata":
+                    a["blocksize"] = 512
+                wit = {"method": c.facade, "cmd": c.name, "attached_with_device_type": devtype, "peripheral_qualifier": q, "args": a}
+                ctx.case(("attached-only", c.facade, devtype, q), True)
+                ctx.count("attached_facade_calls")
+                try:
+                    harness.facade_call(c, s, DO.fresh(a) if c.custom else dict(a))
+                    err = None
+                except Exception as e:  # noqa: BLE001
+                    err = e
+                if len(log) != 1:
+                    ctx.fail("C13:%s.attached.execute_count_%d" % (c.facade, len(log)), "%s after attaching to a type %02Xh / qualifier %d device: %d commands (%s)"
+                             % (c.facade, devtype, q, len(log), "%s: %s" % (type(err).__name__, err) if err else "no error"), wit, exc=err)
+                elif log[0].cdb[0] != c.opcode_obj(setname).value:
+                    ctx.fail("C13:%s.attached.opcode.%s" % (c.facade, setname), "cdb[0]=%02Xh, the %s table says %02Xh" % (log[0].cdb[0], setname, c.opcode_obj(setname).value), wit)
 
     for rep in range(shard["reps"]):
         for c in S.COMMANDS.values():
@@ -581,6 +629,9 @@ def _run_transport(shard, ctx, rng, sg, isc, skew):
                     if t == "sgio" and rng.random() < 0.4:
                         devnode.replug(node)
                         replugged = True
+                    if t == "sgio":
+                        # the SG_IO binding reports a residual when the device transferred less than was allocated
+                        sg.resid = (lambda e: (len(e["in"]) * 2) // 3 if e["in_len"] else 0) if rng.random() < 0.35 else None
                     idle = 0
                     if rng.random() < 0.4:
                         idle = rng.choice([31, 61, 301, 3601, 90000])
@@ -613,6 +664,7 @@ def _run_transport(shard, ctx, rng, sg, isc, skew):
                             ctx.fail("C13:%s.transport.%s.dataout_not_the_callers" % (c.facade, t), "the binding was given another buffer than cmd.dataout", wit)
                         ctx.count("transport_buffers_identified")
         finally:
+            sg.resid = None
             try:
                 dev.close()
             except Exception:  # noqa: BLE001
